@@ -204,13 +204,15 @@ PROPS = {
     "C02": dict(
         lean_props=["H4.Props.C02"],
         engines=[
-            # cases 0..NWORKLOADS-1: the 32 workloads of workloads.h (prep file and file after the session); NWORKLOADS: odd-ndds Hnumber regression probe; above: random histories.
+            # cases 0..NWORKLOADS-1: the 32 workloads of workloads.h (prep file and file after the session); NWORKLOADS: odd-ndds Hnumber regression probe; above: random histories
+            # (one in four SD-heavy: several unlimited data sets of different record counts that grow in different sessions).
             # model=None: the engine itself runs `h4model read` (env H4MODEL) on every file it closes and compares the dumps
             E("fmt", "e_fmt.c", model=None, quick=dict(cases=229, chunk=8, timeout=1200), thorough=dict(cases=3029, seeds=4, chunk=40, timeout=3000)),
         ],
         trusted_base=["the independent reader lean/H4/Format.lean is written from the layout comments of hfile_priv.h, hblocks.c, hextelt.c, hcomp.c, hchunks.c, vio.c, vgp.c, vattr.c; where a comment and the code disagree (external element record, LBDR first-length note) the code was followed and the discrepancy is listed in REPORT.md",
                       "compressed payloads: RLE by rleTake (proved equal to the C05 decoder H4.Rle.dec on every stream that decoder accepts), skipping Huffman by H4.SkpHuff.decompress and n-bit by H4.NBit.readBack (both proved against their encoders in C05), deflate by the reader's own inflate (lean/H4/Inflate.lean, RFC 1950/1951, not proved; the Adler-32 trailer of every stream is verified); szip/jpeg/imcomp payloads are read structurally only (digest '?')",
-                      "the library-side dump uses the library's own read path (Hfind, Hstartread/Hread, VSattach/Vattach structures); the comparison is therefore reader-vs-library, not reader-vs-ground-truth"],
+                      "the library-side dump uses the library's own read path (Hfind, Hstartread/Hread, VSattach/Vattach structures); the comparison is therefore reader-vs-library, not reader-vs-ground-truth",
+                      "old-style descriptive records (DFTAG_NT, DFTAG_SDD, DFTAG_ID/LD/MD, DFTAG_SDL/SDU/SDF, DFTAG_IP8) are decoded by the reader and checked against the data element of the same NDG/SDG/RIG group or Var0.0/RI0.0 Vgroup (clauses nt, sdd, id; theorem sdd_consistent); the rules are those the writers keep (hdf_write_var/hdf_close, DFSDIputndg, GRIupdatemeta, DFGRaddrig, DFR8putrig): an image element of length 0 is an image without pixels, a palette dimension record without number type (0/0) describes 8-bit values; DFTAG_SDS/SDM/FV/CAL payloads and the JFIF stream of JPEG images are not interpreted; checked-in legacy files are not read by the engine (hdifftst3/4.hdf carry the stale SDD of known finding xapi-legacy-sds:stale-sdd-after-append)"],
         assumptions=["files are those produced by the generators of engine fmt (32 workloads + random H/V/AN/GR/SD histories, ndds in {4,5,16}, cache on/off)",
                      "external elements name their file by an absolute path"],
     ),
